@@ -96,7 +96,8 @@ func (a *Array) MarshalJSONBuffer(dst []byte) ([]byte, error) {
 	dst = append(dst, '[')
 	i := a.Iter()
 	var elem Iter
-	for {
+	// Do not consume the end tag: an empty array has no first element.
+	for i.PeekNextTag() != TagArrayEnd {
 		t, err := i.AdvanceIter(&elem)
 		if err != nil {
 			return nil, err
